@@ -33,6 +33,7 @@ typedef struct { int kind, type; unsigned char *body; int len; int prot; /* TLS1
 #define T_CCS 1000
 #define T_ENCFIN 1020
 static unit_t pool[64]; static int npool;             /* every handshake message seen in the honest run (both directions) */
+static unit_t tr[64]; static int ntr;                  /* this connection's handshake messages before the attacked flight, in order (TLS <= 1.2, before CCS) */
 static const unit_t *pool_get(int type) { for (int i = 0; i < npool; i++) if (pool[i].type == type) return &pool[i]; return NULL; }
 
 static int kx_of(const hmode_t *m) { const mx_suite_t *s = mx_suite_by_id(m->suite); if (s->tls13) return 3; if (s->auth == MX_AUTH_PSK) return 2; return (m->suite & 0xff00) == 0xc000 ? 1 : 0; }   /* 0 RSA, 1 ECDHE, 2 PSK, 3 TLS1.3 */
@@ -141,8 +142,8 @@ static int feed_unit(mx_conn *k, mx_ep *T, mx_ep *P, const unit_t *u)
 static int is_dead(mx_ep *T) { return T->dead || (T->ssl->flags & SSL_FLAGS_ERROR) || T->ssl->err != SSL_ALERT_NONE; }
 
 /* ---- deviations ---- */
-enum { DV_NONE = 0, DV_DELETE, DV_DUP, DV_SWAP, DV_INJECT, DV_CCS };
-static const char *dvname[] = { "legal-reframed", "delete", "duplicate", "swap-adjacent", "inject", "premature-ccs" };
+enum { DV_NONE = 0, DV_DELETE, DV_DUP, DV_SWAP, DV_INJECT, DV_CCS, DV_INJECT2 };
+static const char *dvname[] = { "legal-reframed", "delete", "duplicate", "swap-adjacent", "inject", "premature-ccs", "inject-twice" };
 typedef struct { int kind, pos, type; } devn_t;
 static const char *tname(int t)
 {
@@ -163,7 +164,7 @@ static void report(const child_arg *a, const char *clause, int type, const char 
 static void child_run(void *a_)
 {
     child_arg *a = a_; mx_conn *k = a->k; mx_ep *T = a->role == MX_SERVER ? &k->s : &k->c, *P = a->role == MX_SERVER ? &k->c : &k->s; int d = a->role == MX_SERVER ? 0 : 1;
-    unit_t u[24], dseq[30]; int nu, nd = 0;
+    unit_t u[24], dseq[32]; int nu, nd = 0;
     vf_stat("cases", 1);
     nu = split_flight(k, T, P, k->q[d] + k->qoff[d], k->qlen[d] - k->qoff[d], u, 24);
     if (nu <= 0) { vf_stat("flight_not_splittable", 1); return; }
@@ -172,13 +173,15 @@ static void child_run(void *a_)
     dtls_rsn_next = 40 + a->flightNo * 40;
     /* build the deviant sequence */
     const devn_t *dv = &a->dv; unit_t inj; memset(&inj, 0, sizeof inj);
-    if (dv->kind == DV_INJECT || dv->kind == DV_CCS) {
+    if (dv->kind == DV_INJECT || dv->kind == DV_CCS || dv->kind == DV_INJECT2) {
         if (dv->kind == DV_CCS) { static unsigned char ccs[16]; int h = k->dtls ? 13 : 5; memset(ccs, 0, sizeof ccs); ccs[0] = 20; ccs[1] = k->dtls ? 254 : 3; ccs[2] = k->cfg.ver == MX_TLS11 ? 2 : k->cfg.ver == MX_DTLS10 ? 255 : k->dtls ? 253 : 3; if (k->dtls) ccs[10] = 77; ccs[h - 1] = 1; ccs[h] = 1; inj = (unit_t) { U_CCS, T_CCS, ccs, h + 1, 0, 1 }; }
         else { const unit_t *src = pool_get(dv->type); static unsigned char empty[12]; memset(empty, 0, sizeof empty); empty[0] = (unsigned char) dv->type;
-            if (src) inj = *src; else inj = (unit_t) { U_HS, dv->type, empty, k->dtls ? 12 : 4, 0, 1 }; inj.origin = 1; }
+            static unsigned char pskske[6] = { 12, 0, 0, 2, 0, 0 };   /* ServerKeyExchange of a plain PSK suite with an empty identity hint (legal once, RFC 4279) */
+            if (src) inj = *src; else if (dv->type == 12 && kx_of(a->m) == 2 && !k->dtls) inj = (unit_t) { U_HS, 12, pskske, 6, 0, 1 };
+            else inj = (unit_t) { U_HS, dv->type, empty, k->dtls ? 12 : 4, 0, 1 }; inj.origin = 1; }
     }
     for (int i = 0; i <= nu; i++) {
-        if ((dv->kind == DV_INJECT || dv->kind == DV_CCS) && dv->pos == i) dseq[nd++] = inj;
+        if ((dv->kind == DV_INJECT || dv->kind == DV_CCS || dv->kind == DV_INJECT2) && dv->pos == i) { dseq[nd++] = inj; if (dv->kind == DV_INJECT2) dseq[nd++] = inj; }
         if (i == nu) break;
         if (dv->kind == DV_DELETE && dv->pos == i) continue;
         if (dv->kind == DV_SWAP && dv->pos == i && i + 1 < nu) { dseq[nd++] = u[i + 1]; dseq[nd++] = u[i]; i++; continue; }
@@ -229,10 +232,19 @@ static void child_run(void *a_)
            (feed the extra message into its running handshake hash through the library's own function) and see. */
         vf_stat("lax_state_machine_observations", 1);
         vf_statf(1, "lax_%s_%s_%s", mx_vername[a->m->ver], a->role ? "server" : "client", tname(dseq[firstAcceptedIllegal].type));
-        if ((dv->kind == DV_DUP || dv->kind == DV_INJECT) && dseq[firstAcceptedIllegal].kind == U_HS && a->m->ver != MX_TLS13 && !(P->ssl->flags & SSL_FLAGS_WRITE_SECURE)) {
-            MX_ENTER(); sslUpdateHSHash(P->ssl, dseq[firstAcceptedIllegal].body, dseq[firstAcceptedIllegal].len); MX_LEAVE();
-            vf_stat("transcript_consistent_sender_runs", 1);
-        }
+    }
+    /* Transcript-consistent deviant sender (TLS <= 1.2 over TCP, before the sender's ChangeCipherSpec): a malicious peer's own
+       transcript contains exactly what it sent.  Re-base the sender's running handshake hash on the receiver's view - every
+       handshake message exchanged before this flight plus the deviant sequence the receiver consumed - with the library's own
+       functions, so that the rest of the handshake (the receiver's Finished checked by the sender, the sender's Finished checked
+       by the receiver) is decided by the receiver's state machine alone and not by a transcript mismatch. */
+    if (dv->kind != DV_NONE && !same && !k->dtls && a->m->ver != MX_TLS13 && !is_dead(T) && !matrixSslHandshakeIsComplete(T->ssl)
+        && !(P->ssl->flags & (SSL_FLAGS_WRITE_SECURE | SSL_FLAGS_READ_SECURE)) && !(T->ssl->flags & SSL_FLAGS_READ_SECURE)) {
+        MX_ENTER(); sslInitHSHash(P->ssl);
+        for (int i = 0; i < ntr; i++) sslUpdateHSHash(P->ssl, tr[i].body, tr[i].len);
+        for (int i = 0; i < nd; i++) if (dseq[i].kind == U_HS && dseq[i].type != 0) sslUpdateHSHash(P->ssl, dseq[i].body, dseq[i].len);   /* HelloRequest is never hashed */
+        MX_LEAVE();
+        vf_stat("transcript_consistent_sender_runs", 1);
     }
     /* let the rest of the honest handshake run */
     mx_conn_run(k, NULL, NULL, 300);
@@ -248,7 +260,8 @@ static void child_run(void *a_)
         else vf_stat("positive_controls_ok", 1);
         return;
     }
-    if (complete) report(a, "completed-with-deviant-sequence", dv->kind == DV_INJECT || dv->kind == DV_CCS ? inj.type : u[dv->pos < nu ? dv->pos : nu - 1].type, "receiver reports a completed handshake after consuming [%s] instead of the honest flight", seqs);
+    if (complete && illegalAt < 0) { vf_stat("grammar_legal_deviations_completed", 1); vf_statf(1, "legal_completed_%s_%s", dvname[dv->kind], tname(dv->type)); }
+    else if (complete) report(a, "completed-with-deviant-sequence", dv->kind == DV_INJECT || dv->kind == DV_INJECT2 || dv->kind == DV_CCS ? inj.type : u[dv->pos < nu ? dv->pos : nu - 1].type, "receiver reports a completed handshake after consuming [%s] instead of the honest flight", seqs);
     else vf_stat(illegalAt >= 0 ? "deviations_refused_at_offending_message_or_later" : "structurally_legal_deviations_refused_later", 1);
 }
 
@@ -259,11 +272,11 @@ static void at_flight(mx_conn *k, const hmode_t *m, int role, int flightNo, int 
     unit_t u[24]; int nu = split_flight(k, T, P, k->q[d] + k->qoff[d], k->qlen[d] - k->qoff[d], u, 24);
     if (nu <= 0) return;
     static const int alphabet[] = { 0, 1, 2, 4, 5, 8, 11, 12, 13, 14, 15, 16, 20, 22, 24, 99 };
-    devn_t list[400]; int nl = 0;
+    devn_t list[800]; int nl = 0;
     list[nl++] = (devn_t) { DV_NONE, 0, 0 };
     if (k->dtls) { for (int i = 0; i < nu; i++) list[nl++] = (devn_t) { DV_DELETE, i, u[i].type }; goto run; }   /* duplicates, reordering and stray records may legally be ignored by DTLS */
     for (int i = 0; i < nu; i++) { list[nl++] = (devn_t) { DV_DELETE, i, u[i].type }; list[nl++] = (devn_t) { DV_DUP, i, u[i].type }; if (i + 1 < nu) list[nl++] = (devn_t) { DV_SWAP, i, u[i].type }; }
-    for (int i = 0; i <= nu; i++) { for (int t = 0; t < 16; t++) { if (!vf_thorough && (i + t + flightNo) % 2 && i > 0 && i < nu) continue; list[nl++] = (devn_t) { DV_INJECT, i, alphabet[t] }; } if (m->ver != MX_TLS13) list[nl++] = (devn_t) { DV_CCS, i, T_CCS }; }
+    for (int i = 0; i <= nu; i++) { for (int t = 0; t < 16; t++) { list[nl++] = (devn_t) { DV_INJECT, i, alphabet[t] }; int a2 = alphabet[t]; if (nl < 790 && (vf_thorough || a2 == 4 || a2 == 12 || a2 == 13 || a2 == 22 || a2 == 8)) list[nl++] = (devn_t) { DV_INJECT2, i, a2 }; } if (m->ver != MX_TLS13) list[nl++] = (devn_t) { DV_CCS, i, T_CCS }; }
 run:
     for (int j = 0; j < nl; j++) {
         long idx = g_idx++;
@@ -295,17 +308,23 @@ static void run_mode(const hmode_t *m, int role)
     npool = 0; int resumedActually = 0, ticketNeg = 0;
     for (int round = 0; round < (m->resumed ? 2 : 1); round++) { if (mx_conn_open(&k, &cfg, sid) != 0) { vf_incon("open failed"); return; } mx_conn_run(&k, NULL, NULL, 300);
         if (!mx_conn_established(&k)) { vf_incon("honest handshake failed for %s/%s", mx_vername[m->ver], m->name); mx_conn_close(&k); return; }
-        if (round == (m->resumed ? 1 : 0)) { for (int i = 0; i < npool; i++) free(pool[i].body); npool = 0; collect_pool(&k); resumedActually = matrixSslIsResumedSession(k.s.ssl) ? 1 : 0; if (m->ver == MX_TLS13) resumedActually = k.s.ssl->sec.tls13UsingPsk ? 1 : 0; ticketNeg = m->ticket; }
+        if (round == 0 && m->resumed) collect_pool(&k);    /* priming (full) handshake: Certificate, ServerKeyExchange, ... stay available for injection into the resumed one */
+        if (round == (m->resumed ? 1 : 0)) { unit_t keep[64]; int nkeep = npool; memcpy(keep, pool, sizeof keep); npool = 0; collect_pool(&k);
+            for (int i = 0; i < nkeep; i++) { if (!pool_get(keep[i].type) && npool < 64) pool[npool++] = keep[i]; else free(keep[i].body); } resumedActually = matrixSslIsResumedSession(k.s.ssl) ? 1 : 0; if (m->ver == MX_TLS13) resumedActually = k.s.ssl->sec.tls13UsingPsk ? 1 : 0; ticketNeg = m->ticket; }
         mx_conn_close(&k); }
     if (m->resumed && !resumedActually) vf_incon("mode %s/%s did not resume", mx_vername[m->ver], m->name);
     matrixSslDeleteSessionId(sid); matrixSslNewSessionId(&sid, NULL);
     if (m->resumed) { if (mx_conn_open(&k, &cfg, sid) != 0) return; mx_conn_run(&k, NULL, NULL, 300); mx_conn_close(&k); }
     if (mx_conn_open(&k, &cfg, sid) != 0) return;
     int d = role == MX_SERVER ? 0 : 1, flightNo = 0, gstate = 0;
+    for (int i = 0; i < ntr; i++) free(tr[i].body); ntr = 0;
     for (int iter = 0; iter < 40; iter++) {
         mx_conn_collect(&k);
         int pend0 = k.qlen[0] - k.qoff[0], pend1 = k.qlen[1] - k.qoff[1];
         if (!pend0 && !pend1) break;
+        /* the flight travelling towards the sender of the attacked direction: part of the transcript both sides share */
+        if (!k.dtls && m->ver != MX_TLS13 && (d == 0 ? pend1 : pend0) > 0) { int od = !d; unit_t v[24]; int nv = split_flight(&k, od == 0 ? &k.s : &k.c, od == 0 ? &k.c : &k.s, k.q[od] + k.qoff[od], k.qlen[od] - k.qoff[od], v, 24);
+            for (int i = 0; i < nv; i++) { if (v[i].kind == U_HS && v[i].type != 0 && ntr < 64) tr[ntr++] = v[i]; else free(v[i].body); } }
         if ((d == 0 ? pend0 : pend1) > 0) {
             mx_ep *T = role == MX_SERVER ? &k.s : &k.c;
             if (!matrixSslHandshakeIsComplete(T->ssl)) {
@@ -314,7 +333,7 @@ static void run_mode(const hmode_t *m, int role)
                 /* advance the reference state over the honest flight */
                 unit_t u[24]; mx_ep *P = role == MX_SERVER ? &k.c : &k.s; int nu = split_flight(&k, T, P, k.q[d] + k.qoff[d], k.qlen[d] - k.qoff[d], u, 24);
                 gctx_t g = { m, role, resumedActually, clientSentCert, ticketNeg };
-                int bad = 0; for (int i = 0; i < nu; i++) { int ns = bad ? -1 : g_next(&g, gstate, u[i].type); if (ns < 0 && !bad) { bad = 1; if (!k.dtls) vf_violation("c06:harness:grammar-rejects-honest-flight", m->name, "reference grammar rejects honest message %s in state %d (%s/%s role %d)", tname(u[i].type), gstate, mx_vername[m->ver], m->name, role); } if (!bad) gstate = ns; free(u[i].body); }
+                int bad = 0; for (int i = 0; i < nu; i++) { int ns = bad ? -1 : g_next(&g, gstate, u[i].type); if (ns < 0 && !bad) { bad = 1; if (!k.dtls) vf_violation("c06:harness:grammar-rejects-honest-flight", m->name, "reference grammar rejects honest message %s in state %d (%s/%s role %d)", tname(u[i].type), gstate, mx_vername[m->ver], m->name, role); } if (!bad) gstate = ns; if (!k.dtls && m->ver != MX_TLS13 && u[i].kind == U_HS && u[i].type != 0 && ntr < 64) tr[ntr++] = u[i]; else free(u[i].body); }
                 flightNo++;
             }
         }
